@@ -9,7 +9,7 @@ from ..ctx import engine
 from ..model import AnalysisError, Program
 from ..paths import SymPath, show
 from ..report import Report
-from .common import is_loop_var, LOGIC, RUNNERS, SELF, STATE, attr, ctor_args, enum_name, runner_paths, owned_by
+from .common import is_attempt_no, is_loop_var, LOGIC, RUNNERS, SELF, STATE, attr, ctor_args, enum_name, runner_paths, owned_by
 
 ST = ("param", "state")
 
@@ -206,7 +206,7 @@ def run(rep: Report, prog: Program, tier: str) -> None:
             if d.get("last_exception") != ("const", None):
                 problems.append(f"last_exception={show(d.get('last_exception'))}")
             at = d.get("attempts")
-            if not (is_loop_var(at)):
+            if not (is_attempt_no(at, p)):
                 problems.append(f"attempts={show(at)}")
             sr = d.get("stop_reason")
             srs = show(sr)
@@ -271,48 +271,36 @@ def run(rep: Report, prog: Program, tier: str) -> None:
             rep.ok("R4.3")
     if n_sched < 2:
         raise AnalysisError("determine_action_from_outcome: ScheduledAction sites not found")
-    rep.floor("R4.3", 5)
+    # the flag that selects last_result / last_exception is true exactly after a result-caused failure
+    n_sites = 0
+    for name in ("sync_call", "async_call"):
+        q = RUNNERS[name]
+        seen_sites: set = set()
+        for p in runner_paths(prog, name):
+            cause = None
+            for e in p.calls(pure=None):
+                if e.is_repo("_RetryState.handle_result"):
+                    cause = "result"
+                elif e.is_repo("_RetryState.handle_exception"):
+                    cause = "exception"
+                elif e.is_repo(":determine_action_from_outcome"):
+                    flag = e.kwargs.get("for_result", e.args[3] if len(e.args) > 3 else ("const", False))
+                    key = (e.node.lineno, cause, show(flag))
+                    if key in seen_sites:
+                        continue
+                    seen_sites.add(key)
+                    n_sites += 1
+                    rep.instance("R4.3", f"{name}|for_result|L{e.node.lineno}|after={cause}")
+                    if cause is not None and flag == ("const", cause == "result"):
+                        rep.ok("R4.3")
+                    else:
+                        rep.fail("R4.3", f"{name}|for_result|after={cause}|{show(flag)}", f"{q}: determine_action_from_outcome(..., for_result={show(flag)}) after a {cause}-caused failure: RetryExhaustedError would carry the wrong one of last_result / last_exception", where=prog.func(q).where(e.node.ast), function=q, path=p.describe())
+    if n_sites < 4:
+        raise AnalysisError(f"R4.3: only {n_sites} determine_action_from_outcome sites found in the call-runners (4 confirmed by hand)")
+    rep.floor("R4.3", 9)
 
     rep.rule("R4.4", "record_failure assigns last_class, last_classification, last_cause and both last_exc / last_result (the other one to None) on every path; it is the first effect of _handle_failure; no other writer of these fields")
-    rf = prog.func(f"{STATE}:_RetryState.record_failure")
-    rep.analysed(rf.qual)
-    for p in engine(prog).paths(rf):
-        st = {e.loc[2]: e.value for e in p.stores() if e.loc[0] == "attr" and e.loc[1] == SELF}
-        is_exc = next((pol for a, pol, _ in p.conds if a == ("cmp", "==", ("param", "cause"), ("const", "exception"))), None)
-        rep.instance("R4.4", f"record_failure|exception={is_exc}")
-        want = {"last_class": attr(("param", "classification"), "klass"), "last_classification": ("param", "classification"), "last_cause": ("param", "cause")}
-        if is_exc:
-            want.update({"last_exc": ("param", "exc"), "last_result": ("const", None)})
-        else:
-            want.update({"last_result": ("param", "result"), "last_exc": ("const", None)})
-        bad = {k: show(st.get(k)) for k, v in want.items() if st.get(k) != v}
-        if is_exc is None:
-            bad["cause-test"] = "cause is not tested against 'exception'"
-        if bad:
-            rep.fail("R4.4", f"record_failure|exception={is_exc}|{sorted(bad)[0]}", f"record_failure (cause == 'exception': {is_exc}): {bad}", where=rf.where(), function=rf.qual, path=p.describe())
-        else:
-            rep.ok("R4.4")
-    hf = prog.func(f"{STATE}:_RetryState._handle_failure")
-    for p in engine(prog).paths(hf)[:12]:
-        first = next((e for e in p.events if e.kind in ("call", "store") and not e.pure), None)
-        rep.instance("R4.4", "_handle_failure|first-effect")
-        ok = first is not None and first.kind == "call" and first.is_repo("_RetryState.record_failure") and first.kwargs == {"classification": ("param", "classification"), "cause": ("param", "cause"), "exc": ("param", "exc"), "result": ("param", "result")}
-        if ok:
-            rep.ok("R4.4")
-        else:
-            rep.fail("R4.4", "_handle_failure|first-effect", f"_handle_failure does not start by record_failure(classification, cause, exc, result): first effect is {first.label if first else None}", where=hf.where(), function=hf.qual)
-            break
-    fields = {"last_exc", "last_result", "last_class", "last_classification", "last_cause"}
-    for fn in prog.funcs.values():
-        if not fn.module.name.startswith("redress.policy"):
-            continue
-        for n in prog._own_nodes(fn.node):
-            if isinstance(n, ast.Attribute) and n.attr in fields and isinstance(n.ctx, ast.Store):
-                rep.instance("R4.4", f"writer|{fn.qual}|{n.attr}")
-                if owned_by(prog, fn, (rf.qual, f"{STATE}:_RetryState.__init__")):
-                    rep.ok("R4.4")
-                else:
-                    rep.fail("R4.4", f"writer|{fn.qual}|{n.attr}", f"{fn.qual} writes `{n.attr}` (the run state must describe the final failure)", where=fn.where(n), function=fn.qual)
+    final_failure_state(rep, "R4.4", prog)
     rep.floor("R4.4", 10)
 
 
@@ -343,6 +331,83 @@ def run(rep: Report, prog: Program, tier: str) -> None:
             rep.ok("R4.5")
     if n_mod < 100:
         raise AnalysisError(f"R4.5: only {n_mod} functions scanned")
+
+    rep.rule("R4.6", "`classified as success` = no result classifier, or the classifier answered None for this very result (= C03 R3.9): the value call() returns is the first one with that verdict")
+    from .c03 import result_verdict
+
+    result_verdict(rep, "R4.6", prog)
+    rep.floor("R4.6", 4)
+
+
+def final_failure_state(rep: Report, rid: str, prog: Program) -> None:
+    """the run state describes the final failure (shared with C14: the terminal event's class / err / cause tags
+    are read from exactly these fields)"""
+    rf = prog.func(f"{STATE}:_RetryState.record_failure")
+    rep.analysed(rf.qual)
+    from ..paths import CannotEval, evaluate, truth
+
+    decided = {"exception": 0, "result": 0}
+    for p in engine(prog).paths(rf):
+        st = {e.loc[2]: e.value for e in p.stores() if e.loc[0] == "attr" and e.loc[1] == SELF}
+        # decided per value of `cause` (a two-valued literal type), whatever mixture of branches and conditional
+        # expressions the function uses
+        for cause in ("exception", "result"):
+
+            def leaf(t: Any, cause: str = cause) -> Any:
+                if t == ("param", "cause"):
+                    return cause
+                if t[0] == "param":
+                    return ("P", t[1])
+                if t[0] == "attr":
+                    return ("A", leaf(t[1]), t[2])
+                raise CannotEval()
+
+            try:
+                if any(truth(a, leaf) != pol for a, pol, _ in p.conds):
+                    continue
+            except CannotEval:
+                rep.instance(rid, f"record_failure|cause={cause}|undecodable")
+                rep.fail(rid, f"record_failure|cause={cause}|condition", f"record_failure: a condition does not depend on `cause` alone: {[show(a) for a, _, _ in p.conds]}", where=rf.where(), function=rf.qual, path=p.describe())
+                continue
+            decided[cause] += 1
+            rep.instance(rid, f"record_failure|cause={cause}")
+            want = {"last_class": ("A", ("P", "classification"), "klass"), "last_classification": ("P", "classification"), "last_cause": cause}
+            want.update({"last_exc": ("P", "exc"), "last_result": None} if cause == "exception" else {"last_result": ("P", "result"), "last_exc": None})
+            bad = {}
+            for k, v in want.items():
+                try:
+                    got = evaluate(st[k], leaf) if k in st else "<not assigned>"
+                except CannotEval:
+                    got = show(st[k])
+                if got != v:
+                    bad[k] = show(st[k]) if k in st else "<not assigned>"
+            if bad:
+                rep.fail(rid, f"record_failure|cause={cause}|{sorted(bad)[0]}", f"record_failure (cause == {cause!r}): {bad}; expected class/classification/cause from the arguments, last_exc = exc and last_result = None for an exception (the reverse for a result)", where=rf.where(), function=rf.qual, path=p.describe())
+            else:
+                rep.ok(rid)
+    if not all(decided.values()):
+        raise AnalysisError(f"record_failure: no path decided for cause values {[k for k, v in decided.items() if not v]}")
+    hf = prog.func(f"{STATE}:_RetryState._handle_failure")
+    for p in engine(prog).paths(hf)[:12]:
+        first = next((e for e in p.events if e.kind in ("call", "store") and not e.pure), None)
+        rep.instance(rid, "_handle_failure|first-effect")
+        ok = first is not None and first.kind == "call" and first.is_repo("_RetryState.record_failure") and first.kwargs == {"classification": ("param", "classification"), "cause": ("param", "cause"), "exc": ("param", "exc"), "result": ("param", "result")}
+        if ok:
+            rep.ok(rid)
+        else:
+            rep.fail(rid, "_handle_failure|first-effect", f"_handle_failure does not start by record_failure(classification, cause, exc, result): first effect is {first.label if first else None}", where=hf.where(), function=hf.qual)
+            break
+    fields = {"last_exc", "last_result", "last_class", "last_classification", "last_cause"}
+    for fn in prog.funcs.values():
+        if not fn.module.name.startswith("redress.policy"):
+            continue
+        for n in prog._own_nodes(fn.node):
+            if isinstance(n, ast.Attribute) and n.attr in fields and isinstance(n.ctx, ast.Store):
+                rep.instance(rid, f"writer|{fn.qual}|{n.attr}")
+                if owned_by(prog, fn, (rf.qual, f"{STATE}:_RetryState.__init__")):
+                    rep.ok(rid)
+                else:
+                    rep.fail(rid, f"writer|{fn.qual}|{n.attr}", f"{fn.qual} writes `{n.attr}` (the run state must describe the final failure)", where=fn.where(n), function=fn.qual)
 
 
 def _all_nested(fi):
